@@ -1,6 +1,6 @@
 (** extraction of the C07 model: specifications (IoSpec) and as-is models (IoModel) *)
 Require Import FastZ.
-From Dashu Require Import Base.Prelude Int.IoSpec Int.IoModel.
+From Dashu Require Import Base.Prelude Int.IoSpec Int.IoModel Int.IoBytesBEModel.
 Extraction "model.ml"
   digits_spec digits_value digit_char radix_valid
   fmt_spec fmt_asis pad_integral_spec format_prepared_asis digits_asis radix_info
@@ -8,4 +8,5 @@ Extraction "model.ml"
   from_str_radix_spec from_str_prefix_spec from_str_radix_asis from_str_prefix_asis from_str_radix_gen from_str_prefix_gen
   le_value le_signed_value be_value be_signed_value to_le_bytes_spec to_signed_le_bytes_spec
   to_le_bytes_asis to_signed_le_bytes_asis to_signed_le_bytes_before_fix from_le_bytes_asis from_signed_le_bytes_asis
+  to_be_bytes_asis to_signed_be_bytes_asis from_be_bytes_asis from_signed_be_bytes_asis
   to_chunks_spec from_chunks_spec chunk_count to_chunks_asis to_chunks_before_fix from_chunks_asis.
